@@ -796,7 +796,9 @@ class Trans:
         if name.startswith('llvm.umax'): return setv('(%s>%s?%s:%s)'%(a[0],a[1],a[0],a[1]))
         if name.startswith('llvm.smin'): return setv('(%s<%s?%s:%s)'%(sx(t,a[0]),sx(t,a[1]),a[0],a[1]))
         if name.startswith('llvm.smax'): return setv('(%s>%s?%s:%s)'%(sx(t,a[0]),sx(t,a[1]),a[0],a[1]))
-        if name.startswith('llvm.abs'): return setv(mask(t,'(%s<0?-(u64)%s:(u64)%s)'%(sx(t,a[0]),sx(t,a[0]),sx(t,a[0]))))
+        if name.startswith('llvm.abs'):
+            wide='u128' if t.cw()==128 else 'u64'   # (found by the bigint translation self-test: the 128-bit case was truncated to 64 bits)
+            return setv(mask(t,'(%s<0?-(%s)%s:(%s)%s)'%(sx(t,a[0]),wide,sx(t,a[0]),wide,sx(t,a[0]))))
         if name.startswith('llvm.bswap'): return setv('irc_bswap%d(%s)'%(t.b,a[0]))
         if name.startswith('llvm.ctlz'): return setv('irc_ctlz%d(%s)'%(t.b,a[0]))
         if name.startswith('llvm.cttz'): return setv('irc_cttz%d(%s)'%(t.b,a[0]))
